@@ -1,7 +1,8 @@
-//@ unit: C10.single_step
-//@ props: C10
+//@ unit: C09.single_step_moved
+//@ props: C09
+//@ implicit: C09
 //@ source: src/debugger/debugee/tracer.rs
-//@ fn: Tracer::single_step
+//@ fn: Tracer::single_step (same extraction as C10.single_step; this copy owns the pc-moved assertion for C09 and leaves the queue-distinctness clauses, whose known finding is recorded under C10, to the C10 unit)
 //@ shim: src/debugger/debugee/tracer.rs :: struct Tracer :: tracee_ctl: TraceeCtl, inject_signal_queue: VecDeque<(Pid, Signal)>
 //@ assume: ghost ledger on the TraceeCtl shim: `arrived` = signals the kernel reported in signal-delivery-stop and that the debugger took responsibility for (appended by apply_new_status exactly when it queues one), `delivered` = signals injected into the debuggee with PTRACE_CONT / PTRACE_SINGLESTEP
 //@ assume: a wait status obtained from Tracee::wait_one is about that thread, and the SignalStop reported for it names that thread (the `WaitStatus::Stopped(pid, signal)` arm)
@@ -214,8 +215,6 @@ impl Tracer {
 //@   attr: #[verifier::exec_allows_no_decreases_clause]
 //@   requires R_bal: balanced(old(self))
 //@   ensures E_once: r is Ok ==> balanced(final(self))
-//@   requires R_distinct: distinct_pids(old(self).inject_signal_queue@)
-//@   ensures E_distinct: r is Ok ==> distinct_pids(final(self).inject_signal_queue@)
 //@   outline O_siginfo: `sys::ptrace::getsiginfo(pid).map_err(Ptrace)?` => `outline_getsiginfo(pid)?`
 //@   outline O_trap: `matches!(status, WaitStatus::Stopped(_, Signal::SIGTRAP)) && (info.si_code == code::TRAP_TRACE || info.si_code == code::TRAP_BRKPT || info.si_code == code::SI_KERNEL || info.si_code == code::TRAP_HWBKPT)` => `outline_in_step_trap(&status, &info)`
 //@   outline O_systrap: `matches!(status, WaitStatus::Stopped(_, Signal::SIGTRAP)) && (info.si_code == 5)` => `outline_in_syscall_trap(&status, &info)`
@@ -229,10 +228,9 @@ impl Tracer {
 //@   outline O_transp: `TRANSPARENT_SIGNALS.contains(&$s)` => `outline_is_transparent(&$s)`
 //@   rewrite W_step: `self.tracee_ctl.tracee_ensure(pid).step($s)?` => `self.tracee_ctl.step_thread(pid, $s)?`
 //@   proof before `let stop = self.apply_new_status(tcx, status)?;`: let ghost q0 = self.inject_signal_queue@; let ghost a0 = self.tracee_ctl.arrived@;
-//@   proof after `let stop = self.apply_new_status(tcx, status)?;`: let added = choose|added: Seq<(Pid, Signal)>| #[trigger] (q0 + added) == self.inject_signal_queue@ && self.tracee_ctl.arrived@ == a0 + added && (quiet_stop(stop) is Some ==> added == seq![quiet_stop(stop)->Some_0] && quiet_stop(stop)->Some_0.0 == pid) && distinct_pids(added) && (forall|i: int| 0 <= i < added.len() ==> (#[trigger] added[i]).0 == status_pid(status) || !queued(q0, added[i].0)) && (!(stop is Some && stop->Some_0 is SignalStop) ==> added.len() == 0); lemma_add_ms(q0, added); lemma_add_ms(a0, added); assert(balanced(self)); assert forall|i: int| 0 <= i < added.len() implies !queued(q0, (#[trigger] added[i]).0) by { if added[i].0 == status_pid(status) { assert(status_pid(status) == pid); } } lemma_append_distinct(q0, added); assert(distinct_pids(self.inject_signal_queue@)); if quiet_stop(stop) is Some { let x = quiet_stop(stop)->Some_0; assert(self.inject_signal_queue@.last() == x); lemma_drop_last_ms(self.inject_signal_queue@); lemma_push_ms(self.tracee_ctl.delivered@, x); lemma_drop_last_distinct(self.inject_signal_queue@); assert(self.inject_signal_queue@.drop_last() =~= q0); }
+//@   proof after `let stop = self.apply_new_status(tcx, status)?;`: let added = choose|added: Seq<(Pid, Signal)>| #[trigger] (q0 + added) == self.inject_signal_queue@ && self.tracee_ctl.arrived@ == a0 + added && (quiet_stop(stop) is Some ==> added == seq![quiet_stop(stop)->Some_0] && quiet_stop(stop)->Some_0.0 == pid) && distinct_pids(added) && (forall|i: int| 0 <= i < added.len() ==> (#[trigger] added[i]).0 == status_pid(status) || !queued(q0, added[i].0)) && (!(stop is Some && stop->Some_0 is SignalStop) ==> added.len() == 0); lemma_add_ms(q0, added); lemma_add_ms(a0, added); assert(balanced(self)); if quiet_stop(stop) is Some { let x = quiet_stop(stop)->Some_0; assert(self.inject_signal_queue@.last() == x); lemma_drop_last_ms(self.inject_signal_queue@); lemma_push_ms(self.tracee_ctl.delivered@, x); }
 //@   rewrite W_moved: `let hit_type = WatchpointHitType::EndOfScope(wps.clone()); { reason_loopval_ = Some(StopReason::Watchpoint(pid, pc, hit_type)); break; } } { reason_loopval_ = None; break; }` => `let hit_type = WatchpointHitType::EndOfScope(wps.clone()); { reason_loopval_ = Some(StopReason::Watchpoint(pid, pc, hit_type)); break; } } assert(pc.0 != entry_pc(&old(self).tracee_ctl, pid)); { reason_loopval_ = None; break; }`
 //@   loop 0 invariant I_bal: balanced(self)
-//@   loop 0 invariant I_notq: distinct_pids(self.inject_signal_queue@) && !queued(self.inject_signal_queue@, pid)
 //@ end
 }
 
